@@ -2,6 +2,7 @@ import SwimVerif.Driver
 import SwimVerif.Model.CommandOutput
 import SwimVerif.Model.SupplyLane
 import SwimVerif.Model.ReadFeed
+import SwimVerif.Model.CommandLane
 
 namespace SwimVerif.Machines.C14
 open SwimVerif
@@ -33,6 +34,15 @@ def rf : Machine where
   minit := {}
   mstep := fun m line out => m.step line out
 
-def machines : List (String × Machine) := [("cmd", cmd), ("sup", sup), ("rf", rf)]
+/-- The agent task serving a command lane and a supply lane (`CommandLane`, `DoCommand`, `on_command`, `dirty_items`). -/
+def cl : Machine where
+  σ := CL.Sys
+  init := {}
+  step := CL.stepLine
+  μ := CL.Mon
+  minit := {}
+  mstep := fun m line out => m.step line out
+
+def machines : List (String × Machine) := [("cmd", cmd), ("sup", sup), ("rf", rf), ("cl", cl)]
 
 end SwimVerif.Machines.C14
